@@ -190,6 +190,17 @@ package tglib
 //@ ghostlog ngap.built: trace.Rec(trace.UEContextReleaseComplete, amfUeNgapID, ranUeNgapID, 0)
 //@ func GetNasPdu
 //@ trusted
+// Proved from NASEncode's contract (the plain NAS codec stays assumed): the uplink COUNT used is 0
+// for a new security context and the stored one otherwise, it is the sequence number octet, and
+// the stored COUNT ends one above it; without a security context nothing is counted.
 //@ func EncodeNasPduWithSecurity
-//@ trusted
-//@ ghostlog nas.protect: trace.Rec(int(securityHeaderType), trace.B(securityContextAvailable), trace.B(newSecurityContext), 0)
+//@ prop C06
+//@ opaque snow3gspec.S1 snow3gspec.S2 snow3gspec.MULa snow3gspec.DIVa snow3gspec.Init snow3gspec.Step snow3gspec.Out snow3gspec.Iter nasalg.MUL64 nasalg.MULxPOW64 nasalg.EIA1Fold nasalg.EEA1KeystreamByte nasalg.EEA2KeystreamByte
+//@ requires algs: (ue.IntegrityAlg == 1 || ue.IntegrityAlg == 2) && ue.CipheringAlg <= 2
+//@ let c0 := vcCount0(ue, newSecurityContext)
+//@ ensures count: vc.Imp(result1 == nil && securityContextAvailable, ue.ULCount.Get() == (c0+1)&0xffffff)
+//@ ensures header: vc.Imp(result1 == nil && securityContextAvailable, len(result0) >= 8 && result0[0] == 0x7e && result0[1] == securityHeaderType && result0[6] == uint8(c0))
+//@ ensures nocontext: vc.Imp(!securityContextAvailable, ue.ULCount.Get() == old(ue.ULCount.Get()))
+//@ assigns &ue.ULCount, &ue.DLCount
+//@ assigns global free5gclib/nas/security/snow3g.lfsr free5gclib/nas/security/snow3g.fsm
+//@ ghostlog nas.protect: trace.Rec(int(securityHeaderType), trace.B(securityContextAvailable), trace.B(newSecurityContext), int64(c0))
